@@ -470,14 +470,17 @@ func cmdCheck(args []string) int {
 	}
 	wg.Wait()
 
-	var checkErrs []string
+	// checkErrs: the tool itself failed (load error, panic). anchorErrs: the tool ran, but a rule could not be applied
+	// (a role did not resolve, a rule matched fewer constructs than its floor, an obligation is undecided) - the
+	// property is not established on this tree.
+	var checkErrs, anchorErrs []string
 	for i, e := range errs {
 		if e != nil {
 			checkErrs = append(checkErrs, e.Error())
 		}
 		if results[i] != nil {
 			for _, m := range results[i].Errors {
-				checkErrs = append(checkErrs, cfgs[i].String()+": "+m)
+				anchorErrs = append(anchorErrs, cfgs[i].String()+": "+m)
 			}
 		}
 	}
@@ -539,7 +542,7 @@ func cmdCheck(args []string) int {
 			discharged++
 		case report.Undecided:
 			undecided++
-			checkErrs = append(checkErrs, fmt.Sprintf("undecided obligation %s @ %s: %s", m.Key, m.Pos, m.Detail))
+			anchorErrs = append(anchorErrs, fmt.Sprintf("undecided obligation %s @ %s: %s", m.Key, m.Pos, m.Detail))
 		case report.Violated:
 			if f, ok := openKeys[m.Key]; ok {
 				known++
@@ -597,7 +600,7 @@ func cmdCheck(args []string) int {
 		"configurations":     cfgNames,
 		"checker_cmd":        "bin/verifcheck check -prop " + chk.ID + " -tier " + *tier,
 		"trusted_base":       append([]string{"go/types, go/ssa, go/packages (golang.org/x/tools v0.29.0)", "Go memory model: sync.Mutex critical sections, channel close wakes all receivers"}, chk.Trusted...),
-		"check_errors":       checkErrs,
+		"check_errors":       append(append([]string{}, checkErrs...), anchorErrs...),
 		"normal_form":        notes,
 		"exhaustive":         true,
 		"rule":               "every rule enumerates all of its instances in the loaded packages; an obligation is one rule applied to one construct (function, call site, exit, table entry); nothing is sampled",
@@ -619,13 +622,29 @@ func cmdCheck(args []string) int {
 	for _, l := range vioLines {
 		fmt.Println(l)
 	}
-	if violations > 0 {
-		return 1
+	if len(anchorErrs) > 0 {
+		// not established: reported through the same interface as a violation (exit 1 + VIOLATION line) - the property
+		// did not hold on everything explored - with a replay file that says which rule lost its anchor
+		sort.Strings(anchorErrs)
+		rp := filepath.Join(evidenceDir, "violations", chk.ID+"-not-established-"+report.KeyHash(strings.Join(anchorErrs, "|"))+".json")
+		report.WriteJSON(rp, map[string]any{"property": chk.ID, "kind": "not-established", "what": anchorErrs,
+			"meaning": "a rule of this check could not be applied to this tree (role unresolved, rule below its floor, obligation undecided): the structural clause it decides is not established",
+			"replay":  "verifcheck check -prop " + chk.ID})
+		for _, e := range anchorErrs {
+			fmt.Printf("not-established: %s\n", e)
+			fmt.Fprintf(os.Stderr, "CHECK-ERROR: %s\n", e)
+		}
+		fmt.Printf("VIOLATION property=%s replay=%s\n", chk.ID, rp)
 	}
 	if len(checkErrs) > 0 {
 		for _, e := range checkErrs {
 			fmt.Fprintf(os.Stderr, "CHECK-ERROR: %s\n", e)
 		}
+	}
+	if violations > 0 || len(anchorErrs) > 0 {
+		return 1
+	}
+	if len(checkErrs) > 0 {
 		return 2
 	}
 	return 0
@@ -825,7 +844,7 @@ func cmdSelftest(args []string) int {
 	for _, o := range outs {
 		count[o.Outcome]++
 		switch o.Outcome {
-		case "killed", "silent":
+		case "killed", "silent", "flagged":
 		default:
 			bad++
 		}
@@ -946,7 +965,7 @@ func cmdManifest() int {
 			"kind_free_text": "repository-specific static analyser (go/packages + go/ssa): dataflow, guard dominance, must-pass-through path queries, locksets, typestate, taint, table agreement"}},
 		"checks":         checks,
 		"not_applicable": nas,
-		"notes":          "All claims are level 'other' (static analysis). Exit 0 = every obligation discharged (or listed open in KNOWN_FINDINGS.txt); exit 1 + VIOLATION line = a rule instance is violated; exit 2 + CHECK-ERROR on stderr = the checker could not decide (load error, unresolved role, rule below its floor).",
+		"notes":          "All claims are level 'other' (static analysis). Exit 0 = every obligation discharged (or listed open in KNOWN_FINDINGS.txt); exit 1 + VIOLATION line = a rule instance is violated, or a rule could not be applied to the tree (unresolved role, rule below its floor, undecided obligation: the replay file then has kind 'not-established' and a CHECK-ERROR line goes to stderr); exit 2 + CHECK-ERROR on stderr = the checker itself failed (load or type-check error of the tree, internal panic).",
 	}
 	if nas == nil {
 		m["not_applicable"] = []na{}
@@ -961,7 +980,7 @@ func cmdManifest() int {
 
 type seedOutcome struct {
 	ID      string `json:"id"`
-	Outcome string `json:"outcome"` // detected | missed | not-applicable | error
+	Outcome string `json:"outcome"` // detected | flagged (not-established only) | missed | not-applicable | error
 	Detail  string `json:"detail,omitempty"`
 }
 
@@ -1073,10 +1092,20 @@ func runSeed(id, dir, prop string) (out seedOutcome) {
 			return
 		}
 	}
-	out.Outcome = "missed"
-	if len(res.Errors) > 0 {
-		out.Detail = "check-error: " + strings.Join(res.Errors, "; ")
+	// no rule instance is violated; a rule that lost its anchor on the changed tree (role, floor, undecided obligation)
+	// still makes the check report "not established" (exit 1): flagged, but without naming the defect
+	var anchors []string
+	anchors = append(anchors, res.Errors...)
+	for _, o := range res.Obligations {
+		if o.Status == report.Undecided {
+			anchors = append(anchors, "undecided "+o.Key)
+		}
 	}
+	if len(anchors) > 0 {
+		out.Outcome, out.Detail = "flagged", "not-established: "+strings.Join(anchors, "; ")
+		return
+	}
+	out.Outcome = "missed"
 	return
 }
 
